@@ -3,7 +3,7 @@ import json
 import os
 import sys
 
-from facts import walk, render, role, is_call, AnalysisBroken, VERIF
+from facts import walk, render, role, is_call, null_test, AnalysisBroken, VERIF
 from engines import ff, nth_arg, receiver
 import issues
 import tables
@@ -162,3 +162,71 @@ def run(F, rep):
     for s in S:
         k = '%s|%s|l-order%d' % (s.func.name, '+'.join(s.rules) or 'UNDEFINED', sum(1 for x in S if x.func is s.func and x.create.get('l', 0) < s.create.get('l', 0)))
         rep.check(issues.reaches_logger(s) and s.desc is not None, 'C04.I1', k, s.where, 'issue is created but not added/described on every path', 'described and added')
+
+    # ------------------------------------------------------------------ W: recursive XML walks
+    rep.rule('C04.W1', 'a validator function that walks MathML recursively along firstChild()/next() continues the walk on every path on which the node exists: '
+                       'each continuation call is conditional on null tests only (an early return or extra condition abandons the following siblings and their subtrees)')
+    vkeys = {f.key for f in F.funcs.values() if f.file.endswith('/validator.cpp')}
+    n_w = 0
+    for comp in F.sccs():
+        comp = [k for k in comp if k in vkeys]
+        if not comp:
+            continue
+        # a walker component: some call inside it hands on `x->next()` / `x->firstChild()` (directly or through a local)
+        def steps(f, c):
+            for a in (c['c'][1:] if c.get('mc') else c['c']):
+                t = render(a)
+                if t.endswith('->next()') or t.endswith('->firstChild()'):
+                    return True
+                if a.get('k') == 'Ref' and a.get('dk') in ('local', 'parm'):
+                    for d in f.walk():
+                        cc = d.get('c', [])
+                        rhs = None
+                        if d.get('k') == 'Var' and d.get('d') == a.get('d') and cc:
+                            rhs = cc[0]
+                        elif d.get('k') == 'Call' and d.get('opc') == '=' and cc and cc[0].get('k') == 'Ref' and cc[0].get('d') == a.get('d'):
+                            rhs = cc[1]
+                        if rhs is not None and render(rhs).endswith(('->next()', '->firstChild()')):
+                            return True
+            return False
+        calls = []
+        for k in comp:
+            f = F.funcs[k]
+            for c in f.walk():
+                if c.get('k') == 'Call' and not c.get('opc') and any(ck in comp for ck in F.callee_keys(c)):
+                    calls.append((f, c))
+        recursive = len(comp) > 1 or any(True for f, c in calls)
+        if not recursive or not any(steps(f, c) for f, c in calls):
+            continue
+        for f, c in calls:
+            conds = ff(f).conds_at(c) or []
+            extra = [(render(cn), tr) for cn, tr in conds if null_test(cn) is None]
+            n_w += 1
+            rep.check(not extra, 'C04.W1', '%s|%s' % (f.name, render(c)[:50]), f.where(c),
+                      '%s: the walk is continued by `%s` only when %s: the siblings and children after such a node are never validated' % (f.short, render(c)[:50], ' and '.join('%s is %s' % e for e in extra)[:160]),
+                      'continued whenever the node exists')
+    if n_w < 5:
+        raise AnalysisBroken('C04.W1: %d continuation calls of recursive XML walks found in validator.cpp (5 confirmed)' % n_w)
+
+    # ------------------------------------------------------------------ S: identifiers of shared objects
+    rep.rule('C04.S1', 'the identifier of an object that several entities share (the import source of imported units/components: one <import> element) is entered into the identifier map once per object, '
+                       'i.e. its insertion is conditional on a membership test over the import sources already entered; otherwise a valid model is reported as having a duplicated id')
+    n_s = 0
+    for f in vfs.values():
+        for c in f.walk():
+            if c.get('k') == 'Call' and c.get('fn') == 'addIdMapItem':
+                a = nth_arg(c, 0)
+                if a is None or 'importSource()' not in render(a) and not any('importSource()' in render(d['c'][0]) for d in f.walk() if d.get('k') == 'Var' and d.get('c') and a.get('k') == 'Call' and render(receiver(a) or {}) == d.get('n')):
+                    continue
+                n_s += 1
+                conds = ff(f).conds_at(c) or []
+                guarded = any(any(x.get('k') == 'Call' and (x.get('callee') in ('std::find', 'std::find_if', 'std::count') or x.get('fn') in ('count', 'find', 'insert')) for x in walk(cn)) and 'mport' in render(cn) for cn, tr in conds)
+                rep.check(guarded, 'C04.S1', '%s|%s' % (f.name, render(a)[:40]), f.where(c),
+                          '%s enters the id of an import source once per importing units/component: an <import id="x"> with two children is reported as a duplicated identifier although the model is valid' % f.short, 'entered once per import source')
+    if n_s < 2:
+        raise AnalysisBroken('C04.S1: import-source id insertions vanished (%d found, 2 confirmed)' % n_s)
+
+    # ------------------------------------------------------------------ clauses shared with C16 (value recognisers the validator relies on)
+    import core
+    import c16
+    c16.run(F, core.Borrowed(rep, only={'C16.N1', 'C16.G1', 'C16.U2'}))
